@@ -95,6 +95,9 @@ func registerIntrinsics(M map[string]Model) {
 	I("IteU64", func(m *Machine, fr *Frame, a []Value) Value {
 		return m.ctx.Ite(a[0].(*Term), a[1].(*Term), a[2].(*Term))
 	})
+	I("B2U", func(m *Machine, fr *Frame, a []Value) Value {
+		return m.ctx.Ite(a[0].(*Term), m.ctx.Const(1, 64), m.ctx.Const(0, 64))
+	})
 	I("BytesEq", func(m *Machine, fr *Frame, a []Value) Value {
 		x, y := a[0].(Agg), a[1].(Agg)
 		return m.stringEq(Agg{x[0], x[1]}, Agg{y[0], y[1]})
